@@ -447,9 +447,15 @@ class IntegerFieldFormat(AbstractFieldFormat):
                 # For fixed data format, use an implicit range starting from
                 # 1 to take into account that leading and trailing blanks
                 # might be missing from the rule parts.
-                assert self.length.lower_limit == self.length.upper_limit
+                if (self.length.upper_limit is None) or (self.length.lower_limit != self.length.upper_limit):
+                    raise errors.InterfaceError(
+                        "length for fixed data format must be a specific number but is: %s" % self.length
+                    )
                 length = ranges.Range("1...%d" % self.length.upper_limit)
-            length_range = ranges.create_range_from_length(length)
+            try:
+                length_range = ranges.create_range_from_length(length)
+            except errors.RangeValueError as error:
+                raise errors.InterfaceError(str(error))
 
         has_rule = (rule is not None) and (rule.strip() != "")
         if has_rule:
